@@ -15,6 +15,7 @@ def obligations(tier):
     obs.append(ch("vtt_read_amp", "harness.C04_vtt", timeout=T, functions=V, bounds="'a&' + 3 arbitrary code points + ';b' (every 3-letter reference name, e.g. &amp; is 'amp')"))
     obs.append(ch("vtt_read_tag2", "harness.C04_vtt", timeout=T, functions=V, bounds="'x<' ['/'] + 1-2 arbitrary code points + '>y' (all 1-2 character tag names, known and unknown)"))
     obs.append(ch("vtt_read_tag_ann", "harness.C04_vtt", timeout=T, functions=V, bounds="'x<' + 1-2 code points + ' Ann>y</v>' (tag with annotation: voice vs others)"))
+    obs.append(ch("vtt_read_voice_classes", "harness.C04_vtt", timeout=T, functions=V, bounds="voice tag with 0-3 classes (first class = any word character + 'z') and an annotation"))
     obs.append(ch("srt_read_text", "harness.C04_plain", timeout=T, functions=("SRTReader.read",), bounds="two text lines of 1-3 and 1-2 arbitrary printable code points"))
     obs.append(ch("mdvd_read_text", "harness.C04_plain", timeout=T, functions=("MicroDVDReader.read",), bounds="two '|'-separated lines of 1-3 and 1-2 code points"))
     L = ("DFXPReader._convert_tag_to_node", "SAMIReader._translate_tag")
